@@ -6,6 +6,22 @@ import Proofs.Slice
 namespace Pydap.Handler
 open Pydap
 
+@[simp] theorem wordBytes_eq (rep : StrRep) (s : Str) : wordBytes rep s = strBytes s := by
+  cases rep <;> rfl
+
+@[simp] theorem xValR_eq (rep : StrRep) (t : Xdr.Ty) (v : Val) : xValR rep t v = xVal t v := by
+  cases v <;> cases t <;> simp [xValR, xVal]
+
+theorem flatMap_congr_mem {α β : Type} {l : List α} {f g : α → List β} (h : ∀ x ∈ l, f x = g x) :
+    l.flatMap f = l.flatMap g := by
+  induction l with
+  | nil => rfl
+  | cons a as ih =>
+    simp only [List.flatMap_cons]
+    rw [h a (by simp), ih (fun x hx => h x (by simp [hx]))]
+
+theorem xValR_fun (rep : StrRep) (t : Xdr.Ty) : xValR rep t = xVal t := funext (xValR_eq rep t)
+
 /-! ### `Except` plumbing -/
 
 theorem mapM_ok_of_forall {α β : Type} (f : α → Except Exc β) :
@@ -193,21 +209,5 @@ theorem selND_length : ∀ (sh : List Nat) (idx : List (List Nat)) (d : List Val
     simp only [prod] at hd
     simp only [List.length_take, List.length_drop, hd]
     omega
-
-theorem sliceBase_wf (b b' : Base) (sl : List PSlice) (h : b.WF) (hs : sliceBase b sl = .ok b') :
-    b'.WF ∧ b'.name = b.name ∧ b'.ty = b.ty ∧
-    b'.shape = (List.zipWith sel b.shape (padSl b.shape.length sl)).map List.length := by
-  unfold sliceBase at hs
-  split at hs
-  · rename_i hc
-    simp only [Except.ok.injEq] at hs
-    subst hs
-    refine ⟨⟨?_, rfl⟩, rfl, rfl, rfl⟩
-    simp only
-    apply selND_length
-    · simp only [padSl, List.length_zipWith, List.length_append, List.length_replicate]; omega
-    · exact zip_sel_bound _ _ _ hc.2
-    · exact h.1
-  · simp at hs
 
 end Pydap.Handler
